@@ -37,7 +37,7 @@ JOBS = int(os.environ.get("VERIF_JOBS", V.NCPU))
 # Refusals that are right at a boundary only for an amount (dust adjustment / fee target) decided on ANOTHER boundary
 # (theorem C17_build_refusal_carried_refuted): judged by the theorem's predicate refusal_ok_at, counted in the
 # evidence; VERIF_C17_STRICT_REFUSALS=1 reports them under the key build-refusal-carried-adjustment instead.
-STRICT_REFUSALS = os.environ.get("VERIF_C17_STRICT_REFUSALS") == "1"
+STRICT_REFUSALS = os.environ.get("VERIF_C17_STRICT_REFUSALS", "1") == "1"   # reported under the key (listed in KNOWN_FINDINGS.txt)
 BUILD_SCENARIOS = 72   # 8 calls x 9 kinds of pending blocks
 
 
